@@ -33,6 +33,9 @@ def main(argv):
             env["LD_PRELOAD"] = preload
         os.execve(sys.executable, [sys.executable, os.path.abspath(sys.argv[0])] + argv, env)
     os.environ.setdefault("MWLIB_FETCH_MAX_REQUESTS_PER_SECOND", "0")
+    if os.environ.get("VERIF_REPO"):
+        # (seed regression only: check a scratch copy of the repository instead of /repo)
+        sys.path.insert(0, os.path.join(os.environ["VERIF_REPO"], "src"))
     from mc.core import build
     try:
         build.ensure_built()
